@@ -339,3 +339,25 @@ Definition slot_is (F : list face) (t : Z) (d : Z * Z) : bool :=
 Definition edge_cover_ok (F : list face) (E : list edge) : bool :=
   forallb (fun t => Nat.eqb (length (filter (slot_is F t) (edge_slots E))) 3) (zrange (zlen F)).
 
+
+(* the surface is an oriented manifold with a consistent edge list, as list conditions (no reference to the model's queries):
+   no half-edge belongs to two faces (or twice to one), the stored edges are pairwise distinct in both directions (no loop),
+   and every side of every face is a stored edge *)
+Definition face_hes (f : face) : list (Z * Z) := let '(p, q, r) := f in [(p, q); (q, r); (r, p)].
+Definition pair_eqb (a b : Z * Z) : bool := (fst a =? fst b) && (snd a =? snd b).
+Fixpoint nodup_b (l : list (Z * Z)) : bool :=
+  match l with [] => true | x :: r => negb (existsb (pair_eqb x) r) && nodup_b r end.
+Definition surface_manifold_ok (F : list face) (E : list edge) : bool :=
+  nodup_b (flat_map face_hes F) && nodup_b (edge_slots E) &&
+  forallb (fun d => existsb (pair_eqb d) (edge_slots E)) (flat_map face_hes F).
+
+(* the tetrahedral mesh is conforming, as conditions on the cell list alone: every cell has four distinct vertices and every
+   triangular face of a cell lies in at most one other cell *)
+Fixpoint nodup_z (l : list Z) : bool := match l with [] => true | x :: r => negb (zmem x r) && nodup_z r end.
+Definition face_in_cell (f : list Z) (a : Z) (jc : Z * cell) : bool :=
+  negb (fst jc =? a) && forallb (fun x => zmem x (cell_list (snd jc))) f.
+Definition cells_conforming (C : list cell) : bool :=
+  forallb (fun ic : Z * cell => let '(a, c) := ic in
+     nodup_z (cell_list c) &&
+     forallb (fun i => (length (filter (face_in_cell (drop_nth (cell_list c) i) a) (indexed C)) <=? 1)%nat)
+             [0%nat; 1%nat; 2%nat; 3%nat]) (indexed C).
